@@ -42,9 +42,12 @@ Print Assumptions c09_integer_in_range.
 
 (* The delimiter that follows is never consumed: for ANY text t without a
    delimiter (and without the semicolon that would end the instance: the recovery
-   of CheckRemainingInput stops there, see c09_semicolon_stops_recovery), followed by
-   a delimiter d and anything r, each reader ends positioned exactly at d :: r with a
-   usable stream. *)
+   of CheckRemainingInput stops there, see c09_semicolon_stops_recovery; and without
+   a solidus-asterisk pair: that opens a comment, which is white space whatever it holds -
+   c09_comment_is_white_space and c09_unclosed_comment_reported say what happens then),
+   followed by a delimiter d and anything r, each reader ends positioned exactly at
+   d :: r with a usable stream.
+   clean t := no byte of t is a delimiter or a semicolon /\ no_open t = true. *)
 Theorem c09_integer_delimiter_kept : forall t d r sev,
   in_delims DELIMS d = true -> clean t ->
   let '(_, _, s') := read_integer (of_bytes (t ++ d :: r)) sev (Some DELIMS) in
@@ -68,17 +71,40 @@ Print Assumptions c09_number_delimiter_kept.
 
 (* Every conforming INTEGER token (optional sign, one or more digits) whose
    value fits 64 bits is read to exactly the value it denotes, with the severity
-   unchanged and the stream at the delimiter. *)
-Theorem c09_integer_accepts : forall (sign : option bool) ds d r sev,
-  in_delims DELIMS d = true -> digits_of ds -> ds <> [] ->
+   unchanged and the stream at the delimiter - in every delimiter context: the token may be
+   followed by any separator (white space characters and closed comments, in any order and
+   number, none included) before the delimiter.
+   sep_ok: a white space character, or a comment text without an asterisk-solidus pair;
+   sep_bytes: the characters themselves, each comment text between its opening and closing pair. *)
+Theorem c09_integer_accepts : forall (sign : option bool) ds its d r sev,
+  in_delims DELIMS d = true -> digits_of ds -> ds <> [] -> forallb sep_ok its = true ->
   let v := digits_val ds 0 in
   let v' := match sign with Some true => - v | _ => v end in
   LONG_MIN <= v' <= LONG_MAX ->
   let sg := match sign with Some true => [45%N] | Some false => [43%N] | None => [] end in
-  read_integer (of_bytes (sg ++ ds ++ d :: r)) sev (Some DELIMS)
+  read_integer (of_bytes (sg ++ ds ++ sep_bytes its ++ d :: r)) sev (Some DELIMS)
   = (Some v', sev, mkS (d :: r) false false).
 Proof. exact read_integer_accepts. Qed.
 Print Assumptions c09_integer_accepts.
+
+(* A comment between a value and the delimiter that follows it is white space (ISO 10303-21), for every reader
+   (each of them ends in CheckRemainingInput): whatever value was read, when a separator and then a delimiter
+   follow it, nothing is reported, nothing of the delimiter or beyond is consumed, and the stream is usable -
+   whatever the comments hold, delimiters and semicolons included. *)
+Theorem c09_comment_is_white_space : forall its d r s sev,
+  forallb sep_ok its = true -> in_delims DELIMS d = true ->
+  eofb s = false -> rest s = sep_bytes its ++ d :: r ->
+  check_remaining s sev (Some DELIMS) = (sev, mkS (d :: r) false false).
+Proof. exact check_remaining_separator. Qed.
+Print Assumptions c09_comment_is_white_space.
+
+(* a comment that is opened and never closed is never read clean: the error is the unrecoverable one *)
+Theorem c09_unclosed_comment_reported : forall its body s sev,
+  forallb sep_ok its = true -> has_close body = false ->
+  eofb s = false -> rest s = sep_bytes its ++ 47%N :: 42%N :: body ->
+  check_remaining s sev (Some DELIMS) = (greater sev SEVERITY_INPUT_ERROR, mkS [] true true).
+Proof. exact check_remaining_unclosed_comment. Qed.
+Print Assumptions c09_unclosed_comment_reported.
 
 (* WriteReal: whatever text "%.15G" produced, the written token contains a
    decimal point; when the text has an exponent but no point, exactly ".E" is
@@ -119,8 +145,18 @@ Example c09_examples :
   (* "9999999999999999999999," overflows and is flagged *)
   snd (fst (read_integer (of_bytes (repeat 57%N 22 ++ [44%N])) 3 (Some DELIMS))) = 0 /\
   (* "E5," *) snd (fst (read_real (of_bytes [69;53;44]%N) 3 (Some DELIMS))) = 0 /\
-  (* "1E+22" -> "1.E+22" *) write_real_text [49;69;43;50;50]%N = [49;46;69;43;50;50]%N.
+  (* "1E+22" -> "1.E+22" *) write_real_text [49;69;43;50;50]%N = [49;46;69;43;50;50]%N /\
+  (* "7 /*,*/ )x": space, comment holding a delimiter, space *)
+  read_integer (of_bytes [55;32;47;42;44;42;47;32;41;120]%N) 3 (Some DELIMS) = (Some 7, 3, mkS [41;120]%N false false) /\
+  forallb sep_ok [SpI 32%N; CmI [44%N]; SpI 32%N] = true /\
+  sep_bytes [SpI 32%N; CmI [44%N]; SpI 32%N] = [32;47;42;44;42;47;32]%N /\
+  (* "1.5/**/," and "2/*/," (the second comment is never closed) *)
+  snd (read_real (of_bytes [49;46;53;47;42;42;47;44]%N) 3 (Some DELIMS)) = mkS [44%N] false false /\
+  snd (fst (read_integer (of_bytes [50;47;42;47;44]%N) 3 (Some DELIMS))) = SEVERITY_INPUT_ERROR.
 Proof. vm_compute. repeat split. Qed.
+(* "1/2*" meets the hypothesis of the delimiter theorems *)
+Example c09_clean_example : clean [49; 47; 50; 42]%N.
+Proof. split; [|reflexivity]. intros c [H|[H|[H|[H|[]]]]]; subst; split; reflexivity. Qed.
 
 (* STRING (Str.cc GetLiteralStr, sdaiString.cc STEPread): every well-formed literal -- any sequence of
    plain characters, doubled apostrophes, doubled reverse solidi, page escapes \S\c (c may be an
